@@ -55,6 +55,7 @@ def write_project(root, project, git=None):
         d = os.path.join(root, pkg)
         os.makedirs(d, exist_ok=True)
         with open(os.path.join(d, "COND"), "w") as f:
+            f.write((project.get("cond_prelude") or {}).get(pkg, ""))     # e.g. include() directives
             for t in ts:
                 f.write(task_source(t))
     for pkg, src in project.get("raw_cond", {}).items():
